@@ -14,6 +14,7 @@
 package lawlib
 
 import (
+	"errors"
 	"fmt"
 	"io"
 	"os"
@@ -100,7 +101,8 @@ type Opt struct {
 	// semantic tag of the instance that the documented precedence selects for values of that
 	// type: "W"/"P" case-insensitive / length-only strings (working package / package of the
 	// type), "D" first-byte-only strings (custom derive package), "L" length-only sequences,
-	// "S" order-insensitive sequences, "I" (imported given: natural semantics, marker only).
+	// "S" order-insensitive sequences, "I" (imported given: natural semantics, marker only),
+	// "F1" structs compared by their first field only.
 	Over map[string]string
 	// Vals overrides the number of values per field (0 = 3 for up to three fields, else 2).
 	Vals int
@@ -219,6 +221,8 @@ func refCombineString(sem, a, b string) (string, bool) {
 
 // ---------------------------------------------------------------- reflection helpers
 
+var errorType = reflect.TypeOf((*error)(nil)).Elem()
+
 func typeOf[T any]() reflect.Type { return reflect.TypeOf((*T)(nil)).Elem() }
 
 // open makes a field of an addressable struct usable irrespective of export status.
@@ -300,6 +304,12 @@ func dump(v reflect.Value, p Opt, sb *strings.Builder, depth int) {
 		sb.WriteString("}")
 	case reflect.Struct:
 		v = addressable(v)
+		if sem == "F1" { // the selected instance looks at the first field only
+			sb.WriteString("(")
+			dump(open(v.Field(0)), p, sb, depth+1)
+			sb.WriteString(", _)")
+			return
+		}
 		if isOption(v.Type()) {
 			if !open(v.Field(0)).Bool() {
 				sb.WriteString("None")
@@ -318,6 +328,16 @@ func dump(v reflect.Value, p Opt, sb *strings.Builder, depth int) {
 			dump(open(v.Field(i)), p, sb, depth+1)
 		}
 		sb.WriteString(")")
+	case reflect.Interface:
+		if v.IsNil() {
+			sb.WriteString("nil")
+			return
+		}
+		if e, ok := v.Interface().(error); ok {
+			fmt.Fprintf(sb, "error(%q)", e.Error())
+			return
+		}
+		panic("lawlib: dump: interface value that is not an error")
 	default:
 		panic("lawlib: dump: unsupported kind " + v.Kind().String())
 	}
@@ -415,6 +435,18 @@ func domOf(t reflect.Type, p Opt, depth int) []gen {
 		return []gen{konst(t, "A"), konst(t, "a"), konst(t, "b")} // ascending
 	case reflect.Bool:
 		return []gen{konst(t, false), konst(t, true)}
+	case reflect.Interface:
+		if t != errorType {
+			panic("lawlib: domOf: interface type " + t.String())
+		}
+		mk := func(msg string) gen {
+			return gen{"error(" + msg + ")", func() reflect.Value {
+				v := reflect.New(t).Elem()
+				v.Set(reflect.ValueOf(errors.New(msg)))
+				return v
+			}}
+		}
+		return []gen{{"nil", func() reflect.Value { return reflect.Zero(t) }}, mk("x"), mk("y")}
 	case reflect.Ptr:
 		out := []gen{{"nil", func() reflect.Value { return reflect.Zero(t) }}}
 		if depth <= 0 {
